@@ -187,10 +187,11 @@ Fixpoint set_nth {A} (i : nat) (v : A) (l : list A) : list A :=
   end.
 
 (* generate_centroids on one instance -> (centroid, the instance afterwards).
-   `write_through` = the current behaviour of the code (DESIGN F5):
+   `write_through` = true: the pinned tree (before fix 563a1fb, DESIGN F5):
    `centroids = points[..., anchor, :]` is a view and the bbox midpoint is
-   written through it into the caller's keypoints.  The agreement theorems
-   hold for both values of the flag. *)
+   written through it into the caller's keypoints; false: the current tree
+   (`.clone()`).  The harness detects the variant at run time; the agreement
+   theorems hold for both values of the flag. *)
 Definition generate_centroid (anchor : option nat) (write_through : bool) (inst : list kp)
   : kp * list kp :=
   let a := match anchor with Some i => nth i inst None | None => None end in
@@ -257,7 +258,7 @@ Fixpoint nonempty_positions (raw : list (list kp)) (i : nat) : list nat :=
 
 Record cfg := {
   c_rgb : bool;
-  c_maxh : option Z; c_maxw : option Z;      (* resolved max_height / max_width *)
+  c_maxh : option Z; c_maxw : option Z;      (* the bounds ONE framework hands to apply_sizematcher (fw_cfg resolves them per framework) *)
   c_scale : Q;
   c_ms : Z;                                  (* max_stride *)
   c_anchor : option nat;
@@ -265,7 +266,7 @@ Record cfg := {
   c_sigma : Q; c_stride : nat;               (* confmap head *)
   c_psigma : Q; c_pstride : nat;             (* pafs head *)
   c_edges : list (nat * nat);
-  c_wt : bool                                (* generate_centroids writes through (current code: true) *)
+  c_wt : bool                                (* generate_centroids writes through (pinned tree: true; current tree, after 563a1fb: false) *)
 }.
 
 Record frame := {
@@ -693,6 +694,148 @@ Definition sm_pad_only (c : cfg) (fr : frame) : Prop :=
     (0 < f_h fr <= mh)%Z /\ (0 < f_w fr <= mw)%Z /\ (f_h fr = mh \/ f_w fr = mw).
 
 (* ------------------------------------------------------------------ *)
+(* round 4 (review findings 1-6): the configuration as the USER gives it,
+   which frames yield samples, the PAF block's filter, SizeMatcher's state  *)
+
+(* (1) max_height / max_width have TWO sources: data_config.preprocessing.max_height /
+   max_width (possibly None) and the `max_hw` argument (ModelTrainer passes the labels'
+   maximum).  Every docstring prescribes "config if not None, else max_hw".
+     - the four *_data_chunks functions do that (get_data_chunks.py: `max_height if
+       max_height is not None else max_hw[0]`);
+     - BaseDataset / CenteredInstanceDataset / CentroidDataset._fill_cache read ONLY
+       `self.max_hw` (x_fx180 = false: the tree as it is; finding C18/F180);
+       x_fx180 = true is proposed_fixes/C18_F180.diff (the datasets apply the documented rule).
+   `cfg.c_maxh / c_maxw` above are the bounds one framework hands to apply_sizematcher;
+   `fw_cfg` resolves them per framework. *)
+Record maxsrc := {
+  x_cfgh : option Z; x_cfgw : option Z;      (* data_config.preprocessing.max_height / max_width *)
+  x_argh : option Z; x_argw : option Z;      (* the max_hw argument *)
+  x_fx180 : bool;
+  x_fx181 : bool   (* proposed_fixes/C18_F181.diff: SingleInstanceDataset uses max_instances = 1 *)
+}.
+
+Definition resolve_max (cfgv argv : option Z) : option Z :=
+  match cfgv with Some v => Some v | None => argv end.
+Definition st_maxh (x : maxsrc) := resolve_max (x_cfgh x) (x_argh x).
+Definition st_maxw (x : maxsrc) := resolve_max (x_cfgw x) (x_argw x).
+Definition ds_maxh (x : maxsrc) := if x_fx180 x then st_maxh x else x_argh x.
+Definition ds_maxw (x : maxsrc) := if x_fx180 x then st_maxw x else x_argw x.
+
+Definition set_max (c : cfg) (mh mw : option Z) : cfg :=
+  {| c_rgb := c_rgb c; c_maxh := mh; c_maxw := mw; c_scale := c_scale c; c_ms := c_ms c;
+     c_anchor := c_anchor c; c_croph := c_croph c; c_cropw := c_cropw c; c_sigma := c_sigma c;
+     c_stride := c_stride c; c_psigma := c_psigma c; c_pstride := c_pstride c; c_edges := c_edges c;
+     c_wt := c_wt c |}.
+
+Definition fw_cfg (f : fw) (x : maxsrc) (c : cfg) : cfg :=
+  match f with
+  | Str => set_max c (st_maxh x) (st_maxw x)
+  | _ => set_max c (ds_maxh x) (ds_maxw x)
+  end.
+
+(* (2) SingleInstanceDataset pads to get_max_instances(labels) — counted BEFORE the
+   user-instance filter — while single_instance_data_chunks passes max_instances = 1
+   (finding C18/F181; x_fx181 = true: the dataset uses 1 too) *)
+Definition set_maxinst (fr : frame) (m : nat) : frame :=
+  {| f_h := f_h fr; f_w := f_w fr; f_c := f_c fr; f_raw := f_raw fr; f_maxinst := m |}.
+
+Definition fw_frame (t : mtype) (f : fw) (x : maxsrc) (fr : frame) : frame :=
+  match t, f with
+  | Single, Str => fr
+  | Single, _ => if x_fx181 x then set_maxinst fr 1%nat else fr
+  | _, _ => fr
+  end.
+
+(* the sample framework f returns, from the user's configuration *)
+Definition fpipeline (t : mtype) (f : fw) (x : maxsrc) (c : cfg) (fr : frame) : out :=
+  pipeline t f (fw_cfg f x c) (fw_frame t f x fr).
+
+(* selectors (decidable).  F180: the two resolution rules give this frame different
+   effective bounds (a None bound is the frame's own size). *)
+Definition odef (d : Z) (o : option Z) : Z := match o with Some v => v | None => d end.
+Definition eff_bounds (mh mw : option Z) (fr : frame) : Z * Z := (odef (f_h fr) mh, odef (f_w fr) mw).
+Definition sel_F180 (x : maxsrc) (fr : frame) : bool :=
+  negb ((fst (eff_bounds (ds_maxh x) (ds_maxw x) fr) =? fst (eff_bounds (st_maxh x) (st_maxw x) fr))%Z &&
+        (snd (eff_bounds (ds_maxh x) (ds_maxw x) fr) =? snd (eff_bounds (st_maxh x) (st_maxw x) fr))%Z).
+(* F181: single-instance, the dataset NaN-pads (max_instances <> 1 and <> #non-empty) *)
+Definition sel_F181 (t : mtype) (x : maxsrc) (fr : frame) : bool :=
+  match t with
+  | Single => negb (x_fx181 x) && negb (f_maxinst fr =? 1)%nat &&
+              negb (f_maxinst fr =? length (filter nonempty (f_raw fr)))%nat
+  | _ => false
+  end.
+
+(* (3) which frames yield samples, and how many.  A frame without a non-empty instance
+   (no instance at all, or only all-NaN ones) is SKIPPED by the datasets
+   (_get_lf_idx_list / _get_instance_idx_list) and makes every *_data_chunks function raise
+   (process_lf: np.stack([]) -> ValueError; get_bin_files feeds ALL labelled frames to
+   litdata.optimize): finding C18/F182.  None = the framework raises. *)
+Inductive mkind := KSingle | KBottomUp | KCentroid | KCentered.
+Definition frame_empty (fr : frame) : bool := negb (existsb nonempty (f_raw fr)).
+Definition frame_types (kd : mkind) (fr : frame) : list mtype :=
+  match kd with
+  | KSingle => [Single] | KBottomUp => [BottomUp] | KCentroid => [Centroid]
+  | KCentered => map Centered (seq 0 (length (filter nonempty (f_raw fr))))
+  end.
+Definition frame_samples (kd : mkind) (f : fw) (x : maxsrc) (c : cfg) (fr : frame) : list out :=
+  map (fun t => fpipeline t f x c fr) (frame_types kd fr).
+Definition fw_samples (kd : mkind) (f : fw) (x : maxsrc) (c : cfg) (frames : list frame) : option (list out) :=
+  match f with
+  | Str => if existsb frame_empty frames then None
+           else Some (flat_map (frame_samples kd Str x c) frames)
+  | _ => Some (flat_map (fun fr => if frame_empty fr then [] else frame_samples kd f x c fr) frames)
+  end.
+(* the same enumeration without the samples: per frame, how many samples *)
+Definition fw_counts (kd : mkind) (f : fw) (frames : list frame) : option (list nat) :=
+  match f with
+  | Str => if existsb frame_empty frames then None
+           else Some (map (fun fr => length (frame_types kd fr)) frames)
+  | _ => Some (map (fun fr => if frame_empty fr then O else length (frame_types kd fr)) frames)
+  end.
+Definition sel_F182 (frames : list frame) : bool := existsb frame_empty frames.
+
+(* (4) PartAffinityFieldsGenerator.__iter__ and generate_pafs each carry their own copy of
+   the in-image filter `((inst >= 0) & (inst <= [W-1, H-1])).all(-1).any(1)` (NaN compares
+   false) followed by get_edge_points; make_multi_pafs (C05) is applied to the result.
+   The block reads H, W from ex["image"].shape; the function takes img_hw. *)
+Definition edge_points (insts : list (list kp)) (edges : list (nat * nat)) : list (list kp) * list (list kp) :=
+  (map (fun i => map (fun e => nth (fst e) i None) edges) insts,
+   map (fun i => map (fun e => nth (snd e) i None) edges) insts).
+Definition node_in_img (H W : Z) (p : kp) : bool :=
+  match p with
+  | Some (x, y) => (Qle_bool 0 x && Qle_bool x (qz (W - 1))) && (Qle_bool 0 y && Qle_bool y (qz (H - 1)))
+  | None => false
+  end.
+Definition fn_paf_points (H W : Z) (insts : list (list kp)) (edges : list (nat * nat)) :=
+  edge_points (filter (existsb (node_in_img H W)) insts) edges.
+(* the block's inline copy, as written there: comparisons on the whole tensor first
+   (`>= 0` on x and y, `<= bound` on x and y), then `&`, then all over the coordinate axis *)
+Definition dp_node_in_img (g : geom) (p : kp) : bool :=
+  match p with
+  | Some (x, y) =>
+      let ge := (Qle_bool 0 x, Qle_bool 0 y) in
+      let le := (Qle_bool x (qz (gw g - 1)), Qle_bool y (qz (gh g - 1))) in
+      (fst ge && fst le) && (snd ge && snd le)
+  | None => false
+  end.
+Definition dp_paf_points (g : geom) (insts : list (list kp)) (edges : list (nat * nat)) :=
+  edge_points (filter (fun i => existsb (dp_node_in_img g) i) insts) edges.
+
+(* (5) SizeMatcher.__iter__ as the STATEFUL loop it is: `if self.max_height is None:
+   self.max_height = img_height` is an assignment to the object, so a None bound is fixed by
+   the FIRST image and stays; the iteration ends at the first image that exceeds a bound.
+   -> (images yielded, raised?)   dp_sizematcher above is one step from the current state. *)
+Fixpoint dp_sizematcher_run (mh mw : option Z) (imgs : list geom) : list geom * bool :=
+  match imgs with
+  | [] => ([], false)
+  | g :: t =>
+      let mh' := odef (gh g) mh in
+      let mw' := odef (gw g) mw in
+      if ((mh' <? gh g) || (mw' <? gw g))%Z then ([], true)
+      else let r := dp_sizematcher_run (Some mh') (Some mw') t in (img_pad_to mh' mw' g :: fst r, snd r)
+  end.
+
+(* ------------------------------------------------------------------ *)
 (* entry point for the correspondence harness                          *)
 
 Inductive case :=
@@ -704,7 +847,10 @@ Inductive case :=
 | CBlockCrop (dp : bool) (g : geom) (bh bw : Z) (num : nat) (insts : list (list kp)) (cents : list kp)
 | CDPipe (t : mtype) (c : cfg) (fr : frame)                       (* composed legacy pipeline; [] = raises *)
 | CBlockSizeMatcher (dp : bool) (mh mw : option Z) (g : geom)     (* [] = raises *)
-| CBlockReader (dp : bool) (user_only : bool) (maxinst : nat) (insts : list (bool * list kp)).
+| CBlockReader (dp : bool) (user_only : bool) (maxinst : nat) (insts : list (bool * list kp))
+| CPipeX (t : mtype) (f : fw) (x : maxsrc) (c : cfg) (fr : frame)   (* round 4: per-framework resolution *)
+| CBlockPaf (dp : bool) (g : geom) (insts : list (list kp)) (edges : list (nat * nat))
+| CBlockSizeMatcherRun (mh mw : option Z) (gs : list geom).          (* last out with o_num = 1: raised *)
 
 (* a uniform result: image geometry, points, centroids, num, top-left, target sizes *)
 Definition block_out (g : geom) (pts : list (list kp)) (cents : list kp) : out :=
@@ -735,7 +881,23 @@ Definition run (c : case) : list out :=
       let r := (if dp then dp_labels_reader else process_lf) maxinst (user_filter uo insts) in
       [{| o_img := source_img {| f_h := 0; f_w := 0; f_c := 0; f_raw := []; f_maxinst := O |};
           o_pts := fst r; o_cents := []; o_num := snd r; o_tl := None; o_cm := ([], 0%Z, 0%Z, 0, O); o_paf := None |}]
+  | CPipeX t f x c fr => [fpipeline t f x c fr]
+  | CBlockPaf dp g insts edges =>
+      let r := if dp then dp_paf_points g insts edges else fn_paf_points (gh g) (gw g) insts edges in
+      [{| o_img := g; o_pts := fst r; o_cents := []; o_num := length (fst r); o_tl := None;
+          o_cm := (snd r, 0%Z, 0%Z, 0, O); o_paf := None |}]
+  | CBlockSizeMatcherRun mh mw gs =>
+      let r := dp_sizematcher_run mh mw gs in
+      map (fun g => block_out g [] []) (fst r) ++
+      (if snd r then [{| o_img := source_img {| f_h := 0; f_w := 0; f_c := 0; f_raw := []; f_maxinst := O |};
+                         o_pts := []; o_cents := []; o_num := 1%nat; o_tl := None;
+                         o_cm := ([], 0%Z, 0%Z, 0, O); o_paf := None |}] else [])
   end.
+
+(* second entry point: the enumeration (which frames yield how many samples; null = raises) *)
+Inductive ecase := ECount (kd : mkind) (f : fw) (frames : list frame).
+Definition run_enum (e : ecase) : option (list nat) :=
+  match e with ECount kd f frames => fw_counts kd f frames end.
 
 From SV Require Import Base.Render.
 
@@ -755,3 +917,4 @@ Definition rout (o : out) : rdr :=
     [rgeom (o_img o); rlist (rlist rkp) (o_pts o); rlist rkp (o_cents o); rnat (o_num o);
      ropt (rpair rQ rQ) (o_tl o); rcm (o_cm o); ropt rpaf (o_paf o)].
 Definition routs : list out -> rdr := rlist rout.
+Definition renum : option (list nat) -> rdr := ropt (rlist rnat).
